@@ -102,6 +102,7 @@ def value_exprs(stmts) -> list[ast.expr]:
 
 def run(chk: Check) -> None:
     ix = get_index()
+    run_optional_truthiness(chk, ix)
 
     # ---------------- R12.1
     r1 = chk.rule("R12.1", "in every branch guarded by <name> == '<operator spelling>', the Python operator applied to the operands / the IR opcode selected is the one spelled, with operands in parameter order", floor=30)
@@ -549,3 +550,71 @@ def run_kind_predicates(chk: Check, ix) -> None:
         r4.ok(key, maf.loc(lp))
     else:
         r4.violation(key, maf.loc(lp), f"actual kinds {sorted(ACTUAL - covered)} fall through the case split: such arguments are mapped to no formal and neither checked nor reported")
+
+
+FALSY_VALUED = ("int", "float", "str", "bool", "ConstantValue", "complex", "bytes")
+
+
+def _optional_falsy(ann: ast.expr | None) -> bool:
+    """Does the annotation admit both None and a type with a falsy non-None value (0, '', False)?"""
+    if ann is None:
+        return False
+    names = {n.id for n in ast.walk(ann) if isinstance(n, ast.Name)} | {n.value for n in ast.walk(ann) if isinstance(n, ast.Constant) and isinstance(n.value, str)}
+    has_none = any(isinstance(n, ast.Constant) and n.value is None for n in ast.walk(ann)) or "Optional" in names
+    return has_none and bool(names & set(FALSY_VALUED))
+
+
+def run_optional_truthiness(chk: Check, ix) -> None:
+    """R12.5: in the compile-time evaluators, `None` (not a constant / omitted) is told apart from 0 by identity, never by truthiness."""
+    r5 = chk.rule("R12.5", "in the compile-time evaluators (mypy/reachability.py, mypy/constant_fold.py) a value that may be None or a number/string constant (the result of a helper annotated `... | None`, or a piece of it) is never used for its truth value (`x or d`, `x and y`, `not x`, `if x:`): 0, '' and an omitted bound would be conflated, so sys.version_info[0:0] would be evaluated as sys.version_info[0:2] and `0 + x` folded as not-a-constant", floor=6)
+    mods = [ix.modules[m] for m in ("mypy.reachability", "mypy.constant_fold")]
+    for mod in mods:
+        for f in sorted((f for f in ix.functions.values() if f.module is mod and f.parent is None), key=lambda f: f.node.lineno):
+            tainted: dict[str, str] = {}
+            for a in f.node.args.args + f.node.args.kwonlyargs:
+                if _optional_falsy(a.annotation):
+                    tainted[a.arg] = f"parameter {a.arg}: {norm(a.annotation)}"
+
+            def src_of(e: ast.expr) -> str | None:
+                if isinstance(e, ast.Name):
+                    return tainted.get(e.id)
+                if isinstance(e, ast.Subscript):
+                    return src_of(e.value)
+                if isinstance(e, ast.Call):
+                    cal = ix.functions.get(f"{mod.name}.{call_name(e)}") if isinstance(e.func, ast.Name) else None
+                    if cal is not None and _optional_falsy(cal.node.returns):
+                        return f"{cal.name}() -> {norm(cal.node.returns)}"
+                return None
+
+            changed = True
+            while changed:
+                changed = False
+                for n in walk_no_nested(f.node):
+                    if isinstance(n, ast.Assign) and len(n.targets) == 1:
+                        s = src_of(n.value)
+                        if s is None:
+                            continue
+                        t = n.targets[0]
+                        for nm in ([t] if isinstance(t, ast.Name) else list(t.elts) if isinstance(t, (ast.Tuple, ast.List)) else []):
+                            if isinstance(nm, ast.Name) and nm.id not in tainted:
+                                tainted[nm.id] = s
+                                changed = True
+            # a name is cleared once it has been re-bound from a non-optional value under an `is None` test;
+            # truthiness of it is still wrong before that, so no flow refinement: flag every truth-value use.
+            def truth_uses(n: ast.AST):
+                if isinstance(n, ast.BoolOp):
+                    yield from n.values
+                elif isinstance(n, ast.UnaryOp) and isinstance(n.op, ast.Not):
+                    yield n.operand
+                elif isinstance(n, (ast.If, ast.While, ast.IfExp, ast.Assert)):
+                    yield n.test
+            flagged = set()
+            for n in walk_no_nested(f.node):
+                for u in truth_uses(n):
+                    s = src_of(u) if isinstance(u, (ast.Name, ast.Subscript, ast.Call)) else None
+                    if s is not None and id(u) not in flagged:
+                        flagged.add(id(u))
+                        r5.violation(f"{f.qualname}: `{norm(u)}` is not used for its truth value", f.loc(u), f"`{norm(u)}` ({s}) is tested by truthiness in `{norm(n)[:70]}`: the constant 0 (or '') is treated like None / omitted")
+            uses = [n for n in walk_no_nested(f.node) if isinstance(n, ast.Compare) and len(n.ops) == 1 and isinstance(n.ops[0], (ast.Is, ast.IsNot)) and isinstance(n.comparators[0], ast.Constant) and n.comparators[0].value is None and src_of(n.left) is not None]
+            for u in uses:
+                r5.ok(f"{f.qualname}: `{norm(u)}` distinguishes None by identity", f.loc(u))
